@@ -2,7 +2,10 @@ use super::{BlockError, ContextPtr, EntryContext, TokenResult, SLOT_INIT};
 use crate::logging;
 use crate::utils::AsAny;
 use std::any::Any;
+#[cfg(not(sentinel_verif))]
 use std::sync::Arc;
+#[cfg(sentinel_verif)]
+use sentinel_verif_rt::sync::Arc;
 
 /// trait `PartialOrd` is not object safe
 /// SlotChain will sort all it's slots by ascending sort value in each bucket
